@@ -809,6 +809,61 @@ pub fn socket_stage_resolvers(ctx: &Ctx, reps: &[(String, Vec<u8>)], max_reps: u
         p.encode(0)
     };
     let want: IpAddr = "127.0.0.9".parse().unwrap();
+    // genuine answers of several shapes for the address-and-port lookups
+    let srv_reply = |with: u8| -> Vec<u8> {
+        let name = RefName::txt("res._verif._udp.local");
+        let mut p = RefPacket { id: 0, flags: F_QR | F_AA, ..Default::default() };
+        p.answers.push(RefRR { name: name.clone(), class: 1, cache_flush: false, ttl: 10, rdata: typed(33, vec![crate::refmodel::schema::Val::U16(0), crate::refmodel::schema::Val::U16(0), crate::refmodel::schema::Val::U16(8080), crate::refmodel::schema::Val::Name(if with == 3 { RefName::txt("elsewhere.local") } else { name.clone() })]) });
+        match with {
+            1 => p.additional.push(RefRR { name: name.clone(), class: 1, cache_flush: false, ttl: 10, rdata: typed(1, vec![crate::refmodel::schema::Val::U32(0x7f000009)]) }),
+            2 => p.additional.push(RefRR { name: name.clone(), class: 1, cache_flush: false, ttl: 10, rdata: typed(28, vec![crate::refmodel::schema::Val::Fixed(B((1..=16).collect()))]) }),
+            _ => {}
+        }
+        p.encode(0)
+    };
+    // the port lookups: whatever arrives (SRV with an address, SRV alone, SRV with only an IPv6
+    // address, SRV for another host, nothing), the call returns within its timeouts
+    let run_port = |asynchronous: bool, reply: Option<Vec<u8>>| -> Result<Option<Duration>, String> {
+        let (txr, rxr) = std::sync::mpsc::channel();
+        let h = std::thread::spawn(move || {
+            guarded(|| -> Result<(), String> {
+                if asynchronous {
+                    let rt = tokio::runtime::Builder::new_current_thread().enable_all().build().map_err(|e| format!("{}", e))?;
+                    rt.block_on(async {
+                        let mut r = simple_mdns::async_discovery::OneShotMdnsResolver::new().map_err(|e| format!("{:?}", e))?;
+                        r.set_query_timeout(Duration::from_millis(400));
+                        let _ = txr.send(());
+                        let _ = r.query_service_address_and_port("res._verif._udp.local").await;
+                        Ok(())
+                    })
+                } else {
+                    let mut r = simple_mdns::sync_discovery::OneShotMdnsResolver::new().map_err(|e| format!("{:?}", e))?;
+                    r.set_query_timeout(Duration::from_millis(400));
+                    let _ = txr.send(());
+                    let _ = r.query_service_address_and_port("res._verif._udp.local");
+                    Ok(())
+                }
+            })
+        });
+        let t0 = Instant::now();
+        let _ = rxr.recv_timeout(Duration::from_secs(2));
+        std::thread::sleep(Duration::from_millis(40));
+        if let Some(d) = &reply {
+            let _ = net.send(d);
+        }
+        let deadline = Instant::now() + Duration::from_secs(5);
+        while !h.is_finished() && Instant::now() < deadline {
+            std::thread::sleep(Duration::from_millis(5));
+        }
+        if !h.is_finished() {
+            return Ok(None);
+        }
+        match h.join() {
+            Ok(Ok(_)) => Ok(Some(t0.elapsed())),
+            Ok(Err(pn)) => Err(format!("panic: {} at {}", pn.message, pn.location)),
+            Err(_) => Err("resolver thread died".to_string()),
+        }
+    };
     // benign run first: does a resolver see our multicast at all?
     let run = |asynchronous: bool, hostile: Option<&[u8]>| -> Result<(Option<Option<IpAddr>>, Duration), String> {
         let (txr, rxr) = std::sync::mpsc::channel();
@@ -868,6 +923,27 @@ pub fn socket_stage_resolvers(ctx: &Ctx, reps: &[(String, Vec<u8>)], max_reps: u
     }
     let mut t = Tally::default();
     let mut n = 0u64;
+    for asynchronous in [false, true] {
+        let which = if asynchronous { "tokio" } else { "sync" };
+        for (shape, reply) in [("srv+a", Some(srv_reply(1))), ("srv-only", Some(srv_reply(0))), ("srv+aaaa", Some(srv_reply(2))), ("srv-other-target", Some(srv_reply(3))), ("a-only", Some(genuine.clone())), ("silence", None)] {
+            let case = json!({"kind": "socket", "class": format!("port-lookup-{}", shape), "datagram": reply.as_ref().map(|r| hex(r)).unwrap_or_default()});
+            n += 1;
+            t.evals += 1;
+            t.transitions += 2;
+            t.nontrivial += 1;
+            match run_port(asynchronous, reply) {
+                Err(e) => {
+                    ctx.violation(finding(format!("C14|socket-resolver|{}|panic", which), format!("{} query_service_address_and_port: {} (reply shape {})", which, e, shape), case));
+                    t.outcome("resolver-panic");
+                }
+                Ok(None) => {
+                    ctx.violation(finding(format!("C14|socket-resolver|{}|does-not-return", which), format!("{} query_service_address_and_port with a 400 ms timeout has not returned after 5 s (reply shape {})", which, shape), case));
+                    t.outcome("resolver-stuck");
+                }
+                Ok(Some(_)) => t.outcome("resolver-returned"),
+            }
+        }
+    }
     let step = (reps.len() / max_reps.max(1)).max(1);
     for (i, (class, d)) in reps.iter().enumerate() {
         if i % step != 0 || d.len() > 9000 {
